@@ -167,21 +167,16 @@ theorem C14_closed {c : WalkCfg} {excl : List Str → Bool → Bool} {pfx : Str}
 
 /-! ## titles -/
 
-/-- The title of the top index is the prefix when the separator is `"."` (the default); in general the relative
-    path `"."` is replaced by the prefix only if it *equals* the separator.  The title of the index of a
-    sub-directory is `prefix ++ sep ++ path` (unless the path spelled with `/` happens to equal the separator). -/
+/-- The title of the top index is the prefix, whatever the separator is (before the repair `8466859` it was
+    `prefix ++ sep ++ "."` for every separator other than `"."`); the title of the index of a sub-directory is
+    `prefix ++ sep ++ path`. -/
 theorem C14_title (c : WalkCfg) (pfx : Str) :
-    (c.sep = ['.'] → indexTitle c pfx [] = pfx) ∧
-    (c.sep ≠ ['.'] → indexTitle c pfx [] = pfx ++ c.sep ++ ['.']) ∧
-    (∀ rel' : List Str, rel' ≠ [] → joinWith ['/'] rel' ≠ c.sep →
-      indexTitle c pfx rel' = pfx ++ c.sep ++ joinWith ['/'] rel') := by
-  refine ⟨fun h => ?_, fun h => ?_, fun rel' h1 h2 => ?_⟩
-  · simp [indexTitle, withPrefix, relStr, h]
-  · have : ¬(['.'] = c.sep) := fun h' => h h'.symm
-    simp [indexTitle, withPrefix, relStr, this]
-  · cases rel' with
-    | nil => exact absurd rfl h1
-    | cons a as => simp [indexTitle, withPrefix, relStr, h2]
+    indexTitle c pfx [] = pfx ∧
+    (∀ rel' : List Str, rel' ≠ [] → indexTitle c pfx rel' = pfx ++ c.sep ++ joinWith ['/'] rel') := by
+  refine ⟨by simp [indexTitle], fun rel' h1 => ?_⟩
+  cases rel' with
+  | nil => exact absurd rfl h1
+  | cons a as => simp [indexTitle, relStr]
 
 /-! ## reachability -/
 
@@ -288,9 +283,11 @@ example : (∃ w ∈ (walkDir exCfg exExcl (lit "P") [] exTree {}).writes, w.pat
   exact ⟨h.1 rfl (lit "sub") (by decide), h.2 (lit "A.CMake") (by decide) (by decide)⟩
 
 -- titles
-example : indexTitle exCfg (lit "P") [] = lit "P" := (C14_title exCfg (lit "P")).1 rfl
+example : indexTitle exCfg (lit "P") [] = lit "P" := (C14_title exCfg (lit "P")).1
 example : indexTitle exCfg (lit "P") [lit "sub", lit "deep"] = lit "P.sub/deep" := by
-  rw [(C14_title exCfg (lit "P")).2.2 _ (by decide) (by decide)]; decide
+  rw [(C14_title exCfg (lit "P")).2 _ (by decide)]; decide
+-- also with another separator the top index is titled with the prefix alone
+example : indexTitle { exCfg with sep := lit "::" } (lit "P") [] = lit "P" := (C14_title _ (lit "P")).1
 
 -- `sub/deep` is linked from the top index; so is every page
 example : Linked exCfg (indexesOf exCfg exExcl [] exTree) [] [lit "sub", lit "deep"] :=
